@@ -346,8 +346,9 @@ Proof. vm_cast_no_check (eq_refl true). Qed.
 
 Lemma bd_all_pats_nodup : NoDup (map xsyn all_pats).
 Proof.
-  apply bd_nodup_check_sound. unfold all_pats. rewrite <- bd_check_eq.
-  exact weight2_syndromes_nodup.
+  pose proof weight2_syndromes_nodup as H.
+  unfold all_distinct_check in H. rewrite bd_check_eq in H.
+  apply bd_nodup_check_sound in H. exact H.
 Qed.
 
 Lemma bd_nodup_map_inj : forall (A B : Type) (f : A -> B) l x y,
